@@ -39,12 +39,18 @@ struct Model {
   int64_t w = 0, h = 0;
   bool alpha = false;
   unsigned cw = 8;
+  // The image's maximum sample value ("white" / "opaque"). All ones of the channel width for every image made by the sized
+  // constructor; an image loaded from a Netpbm file has the file's MAXVAL, one built by a raw-data constructor the value the
+  // caller passed. It is what an opaque canvas reports as alpha, what set_has_alpha / set_alpha_from_mask_color fill in, what
+  // invert and blend_blit compute with; copies carry it, set_channel_width to another width resets it, operator== compares it.
+  uint64_t mv = 0xFF;
   std::vector<uint64_t> v; // 4 slots per pixel; slot 3 is 0 when !alpha
 
   Model() = default;
-  Model(int64_t w_, int64_t h_, bool alpha_, unsigned cw_) : w(w_), h(h_), alpha(alpha_), cw(cw_), v(static_cast<size_t>(w_ * h_) * 4, 0) {}
+  Model(int64_t w_, int64_t h_, bool alpha_, unsigned cw_, uint64_t mv_ = 0) : w(w_), h(h_), alpha(alpha_), cw(cw_), mv(mv_ ? mv_ : mask_of(cw_)), v(static_cast<size_t>(w_ * h_) * 4, 0) {}
 
-  uint64_t maxv() const { return mask_of(cw); }
+  uint64_t maxv() const { return mv; }
+  uint64_t mask() const { return mask_of(cw); }
   bool inside(i128 x, i128 y) const { return x >= 0 && y >= 0 && x < w && y < h; }
   // what read_pixel reports: alpha of an opaque canvas reads as the maximum value
   RGBA get(int64_t x, int64_t y) const {
@@ -54,13 +60,13 @@ struct Model {
   // what write_pixel stores: values truncated to the channel width, alpha dropped on opaque canvases
   void set(int64_t x, int64_t y, const RGBA& c) {
     uint64_t* p = &v[static_cast<size_t>(y * w + x) * 4];
-    uint64_t m = maxv();
+    uint64_t m = mask();
     p[0] = c.r & m;
     p[1] = c.g & m;
     p[2] = c.b & m;
     p[3] = alpha ? (c.a & m) : 0;
   }
-  bool operator==(const Model& o) const { return w == o.w && h == o.h && alpha == o.alpha && cw == o.cw && v == o.v; }
+  bool operator==(const Model& o) const { return w == o.w && h == o.h && alpha == o.alpha && cw == o.cw && mv == o.mv && v == o.v; }
 };
 
 // ---------------------------------------------------------------- colour rules (mirrored)
@@ -254,7 +260,7 @@ inline void m_invert(Model& d) {
 inline void m_set_has_alpha(Model& d, bool a) {
   if (d.alpha == a) return;
   d.alpha = a;
-  for (size_t i = 0; i < d.v.size(); i += 4) d.v[i + 3] = a ? d.maxv() : 0;
+  for (size_t i = 0; i < d.v.size(); i += 4) d.v[i + 3] = a ? (d.maxv() & d.mask()) : 0;
 }
 // widening replicates the value into the new low bits, narrowing keeps the high bits
 inline void m_set_channel_width(Model& d, unsigned nw) {
@@ -271,6 +277,7 @@ inline void m_set_channel_width(Model& d, unsigned nw) {
     }
   }
   d.cw = nw;
+  d.mv = mask_of(nw); // a change of width makes the full range of the new width the sample range
 }
 inline void m_set_alpha_from_mask_color(Model& d, const RGBA& key) {
   for (int64_t y = 0; y < d.h; y++) {
